@@ -488,6 +488,8 @@ type Contract struct {
 	Clauses []*Clause
 	Pos     string
 	Pure    bool // modifies nothing (declared with "pure")
+	// Positional: the parameter names of the header denote the function's parameters by position (conform.go)
+	Positional bool
 }
 
 type GhostField struct {
@@ -533,6 +535,7 @@ type SpecSet struct {
 	Consts    map[string]int64
 	Ats       []*AtStmt
 	Files     []string
+	Conform   map[string][]string // function type key -> properties under which in-repo implementations are checked
 }
 
 func newSpecSet() *SpecSet {
@@ -733,6 +736,16 @@ func (ss *SpecSet) loadFile(path string) error {
 				return fmt.Errorf("%s: duplicate ghost field %s", pos, f[2])
 			}
 			ss.Ghost[f[2]] = &GhostField{Name: f[2], Type: f[3]}
+			cur = nil
+		case "conform":
+			// conform TYPEKEY PROP... : in-repo functions converted to this function type are verified against its contract
+			if len(f) < 3 {
+				return fmt.Errorf("%s: conform TYPE PROP...", pos)
+			}
+			if ss.Conform == nil {
+				ss.Conform = map[string][]string{}
+			}
+			ss.Conform[f[1]] = append(ss.Conform[f[1]], f[2:]...)
 			cur = nil
 		case "const":
 			// const NAME = INT
